@@ -72,6 +72,73 @@ def lockKind (s : String) : Kind :=
   | some p => p.kind
   | none => .anyone
 
+/-! ## `nut10.SerializeSecret`: `fmt.Sprintf("[\"%s\", %v]", kind, json.Marshal(secret.Data))`
+
+  `json.Marshal` of `SecretData`: members in declaration order, compact; strings by `appendString` with HTML escaping
+  (`encoding/json/encode.go`): `\"` `\\` `\b` `\f` `\n` `\r` `\t`, `\u00xy` for the other control characters and for
+  `<`, `>`, `&`, `\u2028`, `\u2029`, everything else as it is; a nil slice is `null`. -/
+
+def hexDigit (n : Nat) : Char := if n < 10 then Char.ofNat (48 + n) else Char.ofNat (87 + n)
+
+def shortEsc? (c : Char) : Option Char :=
+  if c = '"' then some '"' else if c = '\\' then some '\\'
+  else if c = Char.ofNat 8 then some 'b' else if c = Char.ofNat 12 then some 'f'
+  else if c = '\n' then some 'n' else if c = '\r' then some 'r' else if c = '\t' then some 't'
+  else none
+
+def needsU (c : Char) : Bool :=
+  c.toNat < 0x20 || c == '<' || c == '>' || c == '&' || c == Char.ofNat 0x2028 || c == Char.ofNat 0x2029
+
+def u4 (n : Nat) : List Char := [hexDigit (n / 4096 % 16), hexDigit (n / 256 % 16), hexDigit (n / 16 % 16), hexDigit (n % 16)]
+
+def escapeChar (c : Char) : List Char :=
+  match shortEsc? c with
+  | some x => ['\\', x]
+  | none => if needsU c then '\\' :: 'u' :: u4 c.toNat else [c]
+
+def escapeChars : List Char → List Char
+  | [] => []
+  | c :: cs => escapeChar c ++ escapeChars cs
+
+/-- a Go string as `json.Marshal` writes it -/
+def goQuote (s : String) : List Char := '"' :: (escapeChars s.toList ++ ['"'])
+
+def printStrsTail : List String → List Char
+  | [] => [']']
+  | s :: rest => ',' :: (goQuote s ++ printStrsTail rest)
+
+/-- `[]string` (nil = `none`) -/
+def printStrs : Option (List String) → List Char
+  | none => ['n', 'u', 'l', 'l']
+  | some [] => ['[', ']']
+  | some (s :: rest) => '[' :: (goQuote s ++ printStrsTail rest)
+
+def printRowsTail : List (Option (List String)) → List Char
+  | [] => [']']
+  | r :: rest => ',' :: (printStrs r ++ printRowsTail rest)
+
+/-- `[][]string` (nil = `none`) -/
+def printRows : Option (List (Option (List String))) → List Char
+  | none => ['n', 'u', 'l', 'l']
+  | some [] => ['[', ']']
+  | some (r :: rest) => '[' :: (printStrs r ++ printRowsTail rest)
+
+def kindString : Kind → String
+  | .p2pk => "P2PK"
+  | .htlc => "HTLC"
+  | .anyone => "anyonecanspend"
+
+/-- Go tags as the model sees them (nil and empty slices are both the empty list) -/
+def tagsOf (t : Option (List (Option (List String)))) : List (List String) := (t.getD []).map (·.getD [])
+
+def serializeChars (k : Kind) (nonce data : String) (tags : Option (List (Option (List String)))) : List Char :=
+  ['[', '"'] ++ ((kindString k).toList ++ (['"', ',', ' ', '{', '"', 'n', 'o', 'n', 'c', 'e', '"', ':'] ++ (goQuote nonce ++
+    ([',', '"', 'd', 'a', 't', 'a', '"', ':'] ++ (goQuote data ++ ([',', '"', 't', 'a', 'g', 's', '"', ':'] ++ (printRows tags ++ ['}', ']'])))))))
+
+/-- `nut10.SerializeSecret` -/
+def serializeSecret (k : Kind) (nonce data : String) (tags : Option (List (Option (List String)))) : String :=
+  String.ofList (serializeChars k nonce data tags)
+
 /-! ## witnesses: `json.Unmarshal([]byte(proof.Witness), &P2PKWitness | &HTLCWitness)` with the error ignored
      (`VerifyP2PKLockedProof`, `VerifyHTLCProof`) or turned into `InvalidWitness` (`verifyBlindedMessages`) -/
 
